@@ -1186,6 +1186,7 @@ class HistogramBase(abc.ABC):
             if not config.free_arithmetics and scalar < 0:
                 # Also when all bins are empty: missed values and statistics would turn negative
                 raise ValueError("Cannot have negative frequencies.")
+            self._refuse_scaling_of_negative_contents()
             try:
                 self._coerce_dtype(array.dtype)
             except ValueError as v:
@@ -1193,7 +1194,7 @@ class HistogramBase(abc.ABC):
             frequencies = self.frequencies * scalar
             # Not `scalar**2`: a numpy scalar would be squared in its own (possibly narrow) type
             self.errors2 = self.errors2 * scalar * scalar
-            self._set_scaled_frequencies(frequencies)
+            self.frequencies = frequencies
             self._missed = self._missed * scalar
             if hasattr(self, "_stats"):
                 self._stats = self._stats * scalar
@@ -1209,13 +1210,10 @@ class HistogramBase(abc.ABC):
             raise TypeError("Histograms may be multiplied only by a constant.")
         return self
 
-    def _set_scaled_frequencies(self, frequencies: np.ndarray) -> None:
-        """Contents after a scaling that was accepted (and cannot have changed any sign)."""
-        if config.free_arithmetics:
-            self.frequencies = frequencies
-        else:
-            # Bins made negative under free arithmetics are no reason to refuse (half-way)
-            self._frequencies = self._adopt_values(np.asarray(frequencies))
+    def _refuse_scaling_of_negative_contents(self) -> None:
+        """Negative contents exist only under free arithmetics: refused before anything is touched."""
+        if not config.free_arithmetics and np.any(self._frequencies < 0):
+            raise ValueError("Cannot have negative frequencies.")
 
     def __rmul__(self, other):
         return self * other
@@ -1234,8 +1232,9 @@ class HistogramBase(abc.ABC):
             if other == 0:
                 # Before anything is touched (the statistics would raise it afterwards)
                 raise ZeroDivisionError("Cannot divide a histogram by zero.")
+            self._refuse_scaling_of_negative_contents()
             self._coerce_dtype(np.float64)
-            self._set_scaled_frequencies(self.frequencies / other)
+            self.frequencies = self.frequencies / other
             # Not `other**2`: a numpy scalar would be squared in its own (possibly narrow) type
             self.errors2 = self.errors2 / other / other
             self._missed /= other
